@@ -329,6 +329,7 @@ def run(ctx):
     stages = [False] if not ctx["deep"] else ([True] if ctx["proof_ok"] else [False, True])
     for deep in stages:
         _stage(ctx, res, deep)
+        deny_model_stream(ctx, res, deep)
         if res.spec_violations:
             break
     res.rule = (
@@ -347,6 +348,67 @@ def run(ctx):
     )
     res.exhaustive = ctx["deep"]
     return res
+
+
+
+DENY_TEXT = """[request_definition]
+r = sub, obj, act
+[policy_definition]
+p = sub, obj, act, eft
+[role_definition]
+g = _, _
+[policy_effect]
+e = some(where (p.eft == allow)) && !some(where (p.eft == deny))
+[matchers]
+m = g(r.sub, p.sub) && r.obj == p.obj && r.act == p.act
+"""
+
+
+def _deny_case(args):
+    """a model with an effect column (allow-and-no-deny): implicit users of a permission on the real enforcers"""
+    is_async, prules, grules = args
+    casbin = common.use_repo()
+    import asyncio
+
+    E = casbin.AsyncEnforcer if is_async else casbin.Enforcer
+    e = E(E.new_model(text=DENY_TEXT))
+    run = (lambda c: asyncio.new_event_loop().run_until_complete(c)) if is_async else (lambda x: x)
+    for r in prules:
+        run(e.add_policy(*r))
+    for r in grules:
+        run(e.add_grouping_policy(*r))
+    out = {}
+    for obj in ("data1", "data2"):
+        try:
+            got = list(run(e.get_implicit_users_for_permission(obj, "read")) if is_async else e.get_implicit_users_for_permission(obj, "read"))
+        except Exception as ex:  # noqa
+            got = ["!" + type(ex).__name__]
+        roles = {r[1] for r in grules}
+        cands = sorted(({r[0] for r in prules} | {r[0] for r in grules}) - roles)
+        out[obj] = (got, [u for u in cands if e.enforce(u, obj, "read")])
+    return out
+
+
+def deny_model_stream(ctx, res, deep):
+    """C15 on a model whose rules carry an effect: the implicit users of a permission are exactly the non-role subjects
+    enforce allows - a subject with its own DENY rule on the permission is not among them"""
+    rng = ctx["rng"]
+    names, roles = ["alice", "bob", "carol"], ["admin", "staff"]
+    for _ in range(120 if not deep else 1200):
+        pr = list(dict.fromkeys((rng.choice(names + roles), rng.choice(["data1", "data2"]), "read", rng.choice(["allow", "allow", "deny"])) for _ in range(rng.randint(1, 4))))
+        gr = list(dict.fromkeys((rng.choice(names + roles[1:]), rng.choice(roles)) for _ in range(rng.randint(0, 3))))
+        gr = [g for g in gr if g[0] != g[1]]
+        for is_async in (False, True) if rng.random() < 0.3 else (False,):
+            out = _deny_case((is_async, pr, gr))
+            res.evaluations += 2
+            res.count("stream:deny-model:" + ("async" if is_async else "sync"))
+            res.nontrivial.add(hash(("deny", repr(pr), repr(gr))))
+            for obj, (got, exp) in out.items():
+                if sorted(got) != exp:
+                    res.violation({"signature": f"C15:deny-model:implicitusers{':async' if is_async else ''}", "replay_kind": "deny-model", "async": is_async, "p": [list(r) for r in pr], "g": [list(r) for r in gr], "object": obj,
+                                   "expected": exp, "observed": got, "model_text": DENY_TEXT,
+                                   "what": f"allow-and-no-deny model{' (AsyncEnforcer)' if is_async else ''}, rules {pr}, assignments {gr}: get_implicit_users_for_permission({obj}, read) = {got}; the non-role subjects enforce allows are {exp}"})
+                    return
 
 
 def _stage(ctx, res, deep):
@@ -421,6 +483,9 @@ SPEC_WORDS = {
 
 
 def replay(obj):
+    if obj.get("replay_kind") == "deny-model":
+        got, exp = _deny_case((obj.get("async", False), [tuple(r) for r in obj["p"]], [tuple(r) for r in obj["g"]]))[obj["object"]]
+        return sorted(got) != exp
     c = obj["case"]["config"]
     cfg = ec.Config(c["shape"], adapter=c["adapter"], watcher=c["watcher"], initial=c["initial"], is_async=c.get("async", False))
     cfg.tag = {"depth_ok": True}
